@@ -163,11 +163,22 @@ func init() {
 		var deadline int64
 		switch expKind {
 		case "ex":
-			if expVal > math.MaxInt64/1000 {
+			// the deadline in milliseconds (n*1000 + now) must fit an int64; within a minute of that
+			// boundary the answer depends on the instant
+			lim := math.MaxInt64/1000 - db.Now
+			if expVal > lim+60 {
 				return Err()
+			}
+			if expVal > lim-60 {
+				return Unspecified("expire time at the overflow boundary")
 			}
 			deadline = db.Now + expVal
 		case "px":
+			// (Redis refuses a PX whose deadline in milliseconds does not fit an int64; the command reference
+			// does not say so, and an implementation that keeps deadlines in seconds has no overflow there)
+			if lim := math.MaxInt64 - db.Now*1000; expVal > lim-60000 {
+				return Unspecified("PX beyond the millisecond clock's range")
+			}
 			if expVal%1000 != 0 {
 				return Unspecified("sub-second PX")
 			}
